@@ -211,6 +211,15 @@ class VFunc:
         self.name, self.handler = name, handler
 
 
+class VSym:
+    """A value identified only by a z3 term of an uninterpreted sort (multi-indices, whole tensors in the control tier)."""
+    def __init__(self, term, what=''):
+        self.term, self.what = term, what
+
+    def __repr__(self):
+        return f'VSym({self.term})'
+
+
 class VOpaque:
     """A value the engine does not interpret (only passed around)."""
     def __init__(self, what):
